@@ -518,7 +518,11 @@ class World(object):
         p.pending = ('start', None, None)
         p.state = 'parked'
         p.thread = _threading.Thread(target=run, name='simproc-%d' % p.slot, daemon=True)
-        p.thread.start()
+        old = _threading.stack_size(1024 * 1024)      # small stacks: thread creation is the hot path
+        try:
+            p.thread.start()
+        finally:
+            _threading.stack_size(old)
         return p
 
     def _close_all(self, p):
